@@ -4,7 +4,7 @@
   4. the pinned baseline suite still passes with it (808 stable tests), 5. which checks report it.
 Writes /verif/seeded/<id>/meta.json (merging an existing file) and removes the worktree.
 
-    tools/confirm_seed.py <id> [--skip-suite]
+    tools/confirm_seed.py <id> [--skip-suite] [--base <commit>]
 """
 import json
 import os
@@ -24,6 +24,7 @@ def sh(cmd, cwd=None, env=None, timeout=3600):
 def main():
     sid = sys.argv[1]
     skip_suite = "--skip-suite" in sys.argv
+    base = sys.argv[sys.argv.index("--base") + 1] if "--base" in sys.argv else "HEAD"
     sdir = os.path.join(VERIF, "seeded", sid)
     patch = os.path.join(sdir, "patch.diff")
     demo = os.path.join(sdir, "demo.py")
@@ -33,7 +34,8 @@ def main():
     meta = json.load(open(meta_path)) if os.path.exists(meta_path) else {}
     ran = []
     try:
-        rc, out = sh(f"git -C /repo worktree add -q {wt} HEAD")
+        rc, out = sh(f"git -C /repo worktree add -q {wt} {base}")
+        ran.append(f"scratch worktree of /repo at {base} ({sh(f'git -C {wt} rev-parse --short HEAD')[1].strip()})")
         assert rc == 0, out
         env = dict(os.environ, PYTHONPATH=wt)
         rc0, out0 = sh(f"/venv/bin/python {demo}", cwd=wt, env=env)
